@@ -2,6 +2,8 @@
 from __future__ import annotations
 
 from kfv.core import Ctx
+from kfv.rules import assign_rules as AS
+from kfv.rules import coh_rules as CO
 from kfv.rules import role_rules as RO
 from kfv.rules import dist_rules as D
 from kfv.rules import tensor_rules as TR
@@ -40,3 +42,5 @@ def run(ctx: Ctx) -> None:
     ctx.do(D.rule_dom_valid)
     ctx.do(D.rule_rank_space)
     ctx.do(RO.rule_roles)
+    ctx.do(CO.rule_coh_src)
+    ctx.do(AS.rule_role_grp)
